@@ -13,8 +13,10 @@ LEVEL_TEXT = ("Coq theorems (abstract *-field + DFT character; every N, NFFT >= 
               "ef/eb swap under reversal), arma2psd (coefficient j times tw(-m(j+1)) => rolled; conjugated => mirrored), minvar (aliased grids included), "
               "MultiTapering.__call__ with unity / eigen / adapt weights (adaptive iteration in lock step), arcovar / modcovar (corrmtx + Gaussian elimination on the "
               "normal equations with its exact zero tests + the 'wierd behaviour' assertion: equivariant under the diagonal unitary congruence of the Gram matrix; "
-              "modcovar is reversal invariant because forward and backward Gram blocks swap), arma.ma (aryule twice), and the composed class spectra of pyule, pburg, "
-              "pcovar, pmodcovar, pma, pminvar.  Class level over the pipeline table GENERATED from the source on this run: every class except pmusic/pev stores a scalar multiple "
+              "modcovar is reversal invariant because forward and backward Gram blocks swap), arma.ma (aryule twice), arma.arma_estimate (C15's model: AR / MA "
+              "coefficient j times phi(j+1), same variance and exception, for covariance-method oracles equivariant on the system they are handed -- proved for "
+              "the executable solver, every phase offset; conjugation in the ordered *-field), and the composed class spectra of pyule, pburg, "
+              "pcovar, pmodcovar, pma, pminvar and the parma / pma objects of C15's class model (stored PSD rolled / mirrored).  Class level over the pipeline table GENERATED from the source on this run: every class except pmusic/pev stores a scalar multiple "
               "of the estimator's array, so roll / mirror commute with the store and scale() calls; the AR/MA/ARMA, minvar and multitaper classes store for "
               "real data 2 x the first onesided_len(NFFT) bins of the complex store (NFFT even and odd, any reachable state).  Real data: CORRELATION, LEVINSON, "
               "aryule, arburg commute with any *-homomorphism R -> F (real path = complex path) and return real parameters.  The DFT specification is tied to "
@@ -22,11 +24,12 @@ LEVEL_TEXT = ("Coq theorems (abstract *-field + DFT character; every N, NFFT >= 
               "comparing rotated / mirrored / folded / time-reversed estimates.")
 TRUSTED = ["Coq 8.16.1 kernel + vm_compute", "numpy.fft.fft is modelled by the DFT specification Theory/Dft.v (validated by the binary64 correspondence of this run)",
            "hand-written models Corr/Levinson (tie = exact correspondence at modulated inputs here), MaEst (arma.ma = aryule twice; exact correspondence here), "
+           "ArmaEst + ArmaCall (arma_estimate, parma / pma __call__: tie = C15's correspondence runs, and here arma_estimate at modulated inputs), "
            "Periodogram/Arma2psd/Yule/Burg/Minvar/Mtm/Ls (tie = the correspondence checks of C01/C08/C09/C12/C13/C16/C19)", "fail-closed AST translator tools/props/_pipelines.py + interpreter coq/Model/PipelineLib.v "
            "(validated against real objects by C08)", "dpss tapers are an oracle (real, symmetric/antisymmetric: hypotheses of the multitaper mirror / reversal theorems)",
            "Python harness"]
-UNPROVED = ["arma_estimate under modulation / conjugation (no model): the parma class spectrum follows from arma2psd_rotation / arma2psd_mirror only once it is "
-            "known -- search only",
+UNPROVED = ["that arcovar_marple / scipy lstsq inside arma_estimate are equivariant under modulation / conjugation of their input: oracle hypothesis of the "
+            "arma_estimate / parma theorems (proved for the executable solver of Model/Ls.v) -- the implementation side is covered by the search",
             "pmusic / pev (eigen), pdaniell, real-data correlogram fold (twosided_2_onesided), arma2psd norm=True: search only",
             "scipy.linalg.lstsq in arcovar / modcovar is represented by the executable solver ls_solve (agrees with every normal-equation solver on full-rank data, C09)",
             "conjugation / real-path theorems assume the divisors of the executed stages are nonzero (N, N-k, mean power, error powers, Burg denominators)"]
